@@ -314,10 +314,12 @@ def constVal : Const → R Val
   | .bool b => .ok (.bool b)
   | .nil => panicErr "reflect: call of reflect.Value.Type on zero Value"   -- NewGoValueNode(val, val.Type()…)
 
+/-- remembered values live in the nodes the working memory holds (`e.Value`, `e.Evaluated` are fields of the shared node
+    objects): a value can be remembered only under the snapshot of a registered node -/
 def memoPutE (c : Cfg) (k : Snap) (v : Val) (s : EState) : EState :=
-  if c.memo then { s with memoE := snapSet k v s.memoE } else s
+  if c.memo && (snapGet k c.wm.exprs).isSome then { s with memoE := snapSet k v s.memoE } else s
 def memoPutA (c : Cfg) (k : Snap) (v : Val) (s : EState) : EState :=
-  if c.memo then { s with memoA := snapSet k v s.memoA } else s
+  if c.memo && (snapGet k c.wm.atoms).isSome then { s with memoA := snapSet k v s.memoA } else s
 def memoGetE (c : Cfg) (k : Snap) (s : EState) : Option Val := if c.memo then snapGet k s.memoE else none
 def memoGetA (c : Cfg) (k : Snap) (s : EState) : Option Val := if c.memo then snapGet k s.memoA else none
 
